@@ -27,7 +27,7 @@ UTIL = ["util/variables.cpp", "util/string.cpp", "util/json.cpp"]
 SRC = vlib.BASE_SRC + EVENT + FLOW + UTIL
 
 ASFOUND = [("par_drop", "PauseHoldsResults"), ("stop_blk", "NoStaleNotification"), ("held_stale", "NoStaleNotification"),
-           ("tmo_child", "NothingLeftRunning")]
+           ("tmo_child", "NothingLeftRunning"), ("blk_multi", "NoStaleNotification")]
 
 
 def witnesses():
@@ -63,11 +63,12 @@ def witnesses():
         Nd("Loop", 2, [L("succ", 1)]),
         Nd("Seq", 0, [L("succ", 1, k="Sleep"), L("succ", 0, k="Func")]),
         Nd("Wrap", 0, [L("succ", 3, k="Sleep")]),                         # remaining sleep time across pause/resume
+        Nd("Par", 0, [L("block", 2), Nd("Wrap", 0, [L("block", 1)])]),    # two block notifications of one node in flight
     ]
 
 
 def regressions():
-    """The failing inputs of the four repaired defects (design/C17.md section 4) and close variants: always executed."""
+    """The failing inputs of the five repaired defects (design/C17.md section 4) and close variants: always executed."""
     L, Nd = P.L, P.Nd
     res = []
     for prog, scripts in [
@@ -81,6 +82,8 @@ def regressions():
         (Nd("IfThen", 0, [L("succ", 0), L("never"), L("fail", 0), L("never")]), [["start", "pause", "resume", "reset+start"]]),
         (Nd("Loop", 1, [L("succ", 0)]), [["start", "pause", "resume", "reset+start"], ["start", "pause", "-", "resume", "reset+start"]]),
         (Nd("Repeat", 0, [L("succ", 0)], n=2), [["start", "pause", "resume", "reset+start"]]),
+        (Nd("Par", 0, [L("block", 2), Nd("Wrap", 0, [L("block", 1)])]),
+         [["start", "~resume", "-", "stop"], ["start", "~resume", "-", "reset"], ["start", "~resume", "-", "reset+start"]]),
         (Nd("Par", 0, [L("never"), L("succ", 1)], to=2), [["start"], ["start", "pause", "resume"]]),
         (Nd("Seq", 0, [L("never")], to=1), [["start"]]),
         (Nd("IfElse", 0, [L("succ", 0), L("never"), None], to=2), [["start"]]),
@@ -99,23 +102,34 @@ def write_progs(ctx, name, trees):
     return path
 
 
-BATCH = 1500     # executions per trace file: TLC cannot handle behaviours (= trace lines here) beyond 65535 states once its
-                 # state queue spills to disk, so long runs are cut into several traces
+LINE_BUDGET = 20000   # trace lines per file.  TLC cannot handle behaviours beyond 65535 states (its state-queue writer fails);
+                      # a behaviour here is one state per trace line plus the silent steps, so long runs are cut up.
+
+
+def batches(jobs):
+    cur, n = [], 0
+    for j in jobs:
+        w = 3 * j["passes"] + 6
+        if cur and n + w > LINE_BUDGET:
+            yield cur
+            cur, n = [], 0
+        cur.append(j)
+        n += w
+    if cur:
+        yield cur
 
 
 def validate(ctx, exe, jobs, tag, what):
     ok_all, n_all, tr = True, 0, None
-    nb = (len(jobs) + BATCH - 1) // BATCH
-    for b in range(nb):
-        part = jobs[b * BATCH:(b + 1) * BATCH]
-        t = tag if nb == 1 else "%s_%d" % (tag, b)
-        jp = ctx.tmp(t + ".jsonl")
+    parts = list(batches(jobs))
+    for b, part in enumerate(parts):
+        jp = ctx.tmp("%s_%d.jsonl" % (tag, b))
         with open(jp, "w") as f:
             for j in part:
                 f.write(json.dumps(j) + "\n")
-        tr = ctx.tmp(t + ".ndjson")
+        tr = ctx.tmp("%s_%d.ndjson" % (tag, b))
         ok, n = vlib.record_and_validate(ctx, exe, ["run", jp, tr], tr, "Flow", "Trace_ActionTree.tla", "Trace_ActionTree.cfg",
-                                         what if nb == 1 else "%s [%d/%d]" % (what, b + 1, nb), timeout=1500)
+                                         what if len(parts) == 1 else "%s [%d/%d]" % (what, b + 1, len(parts)), timeout=1500)
         ok_all = ok_all and ok
         n_all += n
         if not ok:
@@ -260,7 +274,7 @@ def run_checked(ctx):
         passes = rnd.choice((5, 6, 8))
         jobs.append({"prog": P.flatten(t), "script": P.random_script(rnd, passes), "passes": passes + 5})
     ok, n, tr = validate(ctx, exe, jobs, "random", "seeded random programs (depth <= 3, <= 6 leaves, timeouts, Sleep/Function leaves)")
-    first = vlib.read_lines(ctx.tmp("random.ndjson") if len(jobs) <= BATCH else ctx.tmp("random_0.ndjson"), 1, 6)
+    first = vlib.read_lines(ctx.tmp("random_0.ndjson"), 1, 6)
     ctx.sample({"kind": "recorded trace (first events)", "events": [json.loads(x) for x in first]})
 
     ctx.assumptions = [
@@ -280,7 +294,5 @@ def run_checked(ctx):
     ctx.uncovered = [
         "ActionExecutor (a client of pause/resume/stop) and EventAction are not driven",
         "control calls are applied to the root only (descendants receive them through their parents)",
-        "two block notifications of one node queued at once (needs a resume between two deliveries of one batch): stop()/reset() "
-        "withdraw only the newer one in the code; the driver's schedules do not reach it",
         "liveness (EventuallyFinishes) is checked only as bounded progress: a queued notification must be delivered within 3 ticks",
     ]
